@@ -502,11 +502,11 @@ func (lb *LoadBalancer) RemoveBackend(name string) {
 	lb.mutex.Lock()
 	defer lb.mutex.Unlock()
 
-	// Find the backend by name
+	// Remove every backend with that name: nothing prevents two backends from being
+	// added under one name, and after a removal none of them may keep serving.
 	for _, backend := range lb.strategy.GetBackends() {
 		if backend.Name == name {
 			lb.strategy.RemoveBackend(backend)
-			break
 		}
 	}
 }
